@@ -697,65 +697,7 @@ func c09R5(p *Prog, r *Report) {
 	}
 	// Config.Router: routes[i] = route for i in range rc.Routes; routes[len(rc.Routes)] = defaultRoute; make(len+1)
 	cr := p.Func("router", "Config", "Router")
-	cinfo := cr.Info()
-	var okMake, okSlot, okDefault, okNoCriteria bool
-	var defObj types.Object
-	for _, v := range cr.G.V {
-		as, ok := v.Node.(*ast.AssignStmt)
-		if !ok || len(as.Lhs) != 1 || len(as.Rhs) != 1 {
-			continue
-		}
-		if c, ok := ast.Unparen(as.Rhs[0]).(*ast.CallExpr); ok {
-			if id, ok := ast.Unparen(c.Fun).(*ast.Ident); ok && id.Name == "make" && len(c.Args) == 2 && strings.ReplaceAll(exprStr(c.Args[1]), " ", "") == "len(rc.Routes)+1" {
-				okMake = true
-			}
-		}
-		if ix, ok := ast.Unparen(as.Lhs[0]).(*ast.IndexExpr); ok && exprStr(ix.X) == "routes" {
-			if exprStr(ix.Index) == "len(rc.Routes)" {
-				okDefault = true
-				defObj = objOf(cinfo, as.Rhs[0])
-				// last statement touching routes
-				for _, v2 := range cr.G.V {
-					if as2, ok := v2.Node.(*ast.AssignStmt); ok && v2.ID != v.ID {
-						if ix2, ok := ast.Unparen(as2.Lhs[0]).(*ast.IndexExpr); ok && exprStr(ix2.X) == "routes" && cr.G.ReachAfter(v.ID, nil, nil)[v2.ID] {
-							okDefault = false
-						}
-					}
-				}
-			} else {
-				// routes[i] = route with i the loop index over rc.Routes and route built from rc.Routes[i]
-				for _, lv := range cr.G.V {
-					if lv.Kind == VRange && exprStr(lv.Stmt.(*ast.RangeStmt).X) == "rc.Routes" && objOf(cinfo, ix.Index) == objOf(cinfo, lv.Stmt.(*ast.RangeStmt).Key) {
-						ro := objOf(cinfo, as.Rhs[0])
-						for _, cs := range cr.AllCalls() {
-							if cs.Fn != nil && cs.Fn.Name() == "Route" && cs.ResultVar(0) == ro && strings.HasPrefix(exprStr(cs.Call.Fun), "rc.Routes["+exprStr(ix.Index)+"]") && cs.SuccessGuards(v.ID) {
-								okSlot = true
-							}
-						}
-					}
-				}
-			}
-		}
-	}
-	if defObj != nil {
-		// defaultRoute has no criteria: only name/tcpClient/udpClient are ever set
-		okNoCriteria = true
-		ast.Inspect(cr.Body, func(n ast.Node) bool {
-			if sel, ok := n.(*ast.SelectorExpr); ok && objOf(cinfo, sel.X) == defObj && (sel.Sel.Name == "criteria" || sel.Sel.Name == "AddCriterion") {
-				okNoCriteria = false
-			}
-			if cl, ok := n.(*ast.CompositeLit); ok {
-				if tv, ok := cinfo.Types[cl]; ok && namedTypeName(tv.Type) == "Route" {
-					for _, el := range cl.Elts {
-						if kv, ok := el.(*ast.KeyValueExpr); ok && kv.Key.(*ast.Ident).Name == "criteria" {
-							okNoCriteria = false
-						}
-					}
-				}
-			}
-			return true
-		})
-	}
+	okMake, okSlot, okDefault, okNoCriteria := routeSliceFacts(p)
 	r.Check(okMake, rule, "router.(*Config).Router:room-for-default", p.posStr(cr.Body.Pos()), "routes has len(rc.Routes)+1 slots", "the route slice has no slot for the default route")
 	r.Check(okSlot, rule, "router.(*Config).Router:configuration-order", p.posStr(cr.Body.Pos()), "routes[i] is built from rc.Routes[i]", "routes are not stored in configuration order")
 	r.Check(okDefault && okNoCriteria, rule, "router.(*Config).Router:default-last-and-unconditional", p.posStr(cr.Body.Pos()), "the criteria-free default route is stored last", "the default route is not the last, unconditional route: configured routes are shadowed or the search falls off the end (panic)")
@@ -983,4 +925,157 @@ func c09R6(p *Prog, r *Report) {
 	}
 	r.Check(len(nonEmpty) > 0 && n > 0 && bad == "", rule, "router.(*RouteConfig).Route:criteria-use-the-named-resolver", p.posStr(fc.Body.Pos()), fmt.Sprintf("all %d uses of the resolver list by criteria lie behind the replacement when a resolver is named", n),
 		"with a resolver named on the route, a criterion can still be given the global resolver list ("+bad+"): the route resolves through resolvers it was told not to use, and an unknown resolver name goes unnoticed")
+}
+
+
+// routeSliceFacts: how Config.Router fills the route slice — made with one slot more than the
+// configuration has routes (okMake), slot i given the route built from the i-th configured route
+// (okSlot), the last slot given a route (okDefault) that never receives a criterion
+// (okNoCriteria). Shared by C09-R5 and C06-R1 (Router.match panics when no route matches).
+func routeSliceFacts(p *Prog) (bool, bool, bool, bool) {
+	cr := p.Func("router", "Config", "Router")
+	cinfo := cr.Info()
+	var okMake, okSlot, okDefault, okNoCriteria bool
+	var defObj types.Object
+	// the route slice: the local made with one slot more than the configuration has routes
+	// (names of locals and of the receiver do not matter: expressions are compared after
+	// resolving locals and renaming the receiver)
+	isCfgRoutes := func(e ast.Expr) bool {
+		s := strings.NewReplacer("(", "", ")", "", "&", "", " ", "").Replace(normExpr(p, cr, e))
+		return s == "recv.Routes"
+	}
+	var routesObj types.Object
+	var sizeLin linForm
+	for _, v := range cr.G.V {
+		as, ok := v.Node.(*ast.AssignStmt)
+		if !ok || len(as.Lhs) != len(as.Rhs) {
+			continue
+		}
+		for i, rhs := range as.Rhs {
+			c, ok := ast.Unparen(rhs).(*ast.CallExpr)
+			if !ok || len(c.Args) != 2 {
+				continue
+			}
+			if id, ok := ast.Unparen(c.Fun).(*ast.Ident); !ok || id.Name != "make" {
+				continue
+			}
+			if namedTypeName(sliceElem(cinfo.TypeOf(c))) != "Route" {
+				continue
+			}
+			lf := linOf(p, cr, c.Args[1])
+			nAtoms := 0
+			okAtom := false
+			for k, coef := range lf {
+				if k == "" {
+					continue
+				}
+				nAtoms++
+				if coef == 1 && strings.HasPrefix(k, "len(") && strings.HasSuffix(strings.ReplaceAll(k, " ", ""), ".Routes)") {
+					okAtom = true
+				}
+			}
+			if nAtoms == 1 && okAtom && lf[""] == 1 {
+				okMake = true
+				routesObj = objOf(cinfo, as.Lhs[i])
+				sizeLin = lf
+			}
+		}
+	}
+	if routesObj != nil {
+		var stores []int
+		for _, v := range cr.G.V {
+			as, ok := v.Node.(*ast.AssignStmt)
+			if !ok || len(as.Lhs) != len(as.Rhs) && len(as.Rhs) != 1 {
+				continue
+			}
+			for li, l := range as.Lhs {
+				ix, ok := ast.Unparen(l).(*ast.IndexExpr)
+				if !ok || objOf(cinfo, ix.X) != routesObj {
+					continue
+				}
+				stores = append(stores, v.ID)
+				// the last slot: index == size - 1
+				if d := linOf(p, cr, ix.Index).add(sizeLin, -1); len(d) == 1 && d[""] == -1 && len(as.Lhs) == len(as.Rhs) {
+					okDefault = true
+					defObj = objOf(cinfo, as.Rhs[li])
+					for _, v2 := range cr.G.V {
+						if as2, ok := v2.Node.(*ast.AssignStmt); ok && v2.ID != v.ID && cr.G.ReachAfter(v.ID, nil, nil)[v2.ID] {
+							for _, l2 := range as2.Lhs {
+								if ix2, ok := ast.Unparen(l2).(*ast.IndexExpr); ok && objOf(cinfo, ix2.X) == routesObj {
+									okDefault = false
+								}
+							}
+						}
+					}
+					continue
+				}
+				// routes[i] with i the index of a range over the configured routes, the value
+				// being what Route() of the i-th configured route returned without an error
+				for _, lv := range cr.G.V {
+					if lv.Kind != VRange {
+						continue
+					}
+					rs := lv.Stmt.(*ast.RangeStmt)
+					if !isCfgRoutes(rs.X) || rs.Key == nil || objOf(cinfo, ix.Index) != objOf(cinfo, rs.Key) {
+						continue
+					}
+					for _, cs := range cr.AllCalls() {
+						if cs.Fn == nil || cs.Fn.Name() != "Route" || namedTypeName(recvTypeOf(cs.Fn)) != "RouteConfig" {
+							continue
+						}
+						sel, ok := ast.Unparen(cs.Call.Fun).(*ast.SelectorExpr)
+						if !ok {
+							continue
+						}
+						recvS := strings.NewReplacer("(", "", ")", "", "&", "", " ", "").Replace(normExpr(p, cr, sel.X))
+						if recvS != "recv.Routes["+rs.Key.(*ast.Ident).Name+"]" {
+							continue
+						}
+						if cs.V == v.ID && len(as.Rhs) == 1 && li == 0 {
+							// stored by the call's own statement: a failed call must end the function with an error
+							okErr := true
+							fe := cs.ResultEdges(-1, WantNonNil)
+							if len(fe) == 0 {
+								okErr = false
+							}
+							reach := cr.G.ReachFromEdges(fe, nil, nil)
+							for _, ret := range cr.ExitPreds() {
+								if reach[ret] && cr.ErrAtReturn(ret) != ErrNonNil {
+									okErr = false
+								}
+							}
+							if okErr {
+								okSlot = true
+							}
+						} else if len(as.Lhs) == len(as.Rhs) {
+							if ro := objOf(cinfo, as.Rhs[li]); ro != nil && cs.ResultVar(0) == ro && cs.SuccessGuards(v.ID) {
+								okSlot = true
+							}
+						}
+					}
+				}
+			}
+		}
+		_ = stores
+	}
+	if defObj != nil {
+		// defaultRoute has no criteria: only name/tcpClient/udpClient are ever set
+		okNoCriteria = true
+		ast.Inspect(cr.Body, func(n ast.Node) bool {
+			if sel, ok := n.(*ast.SelectorExpr); ok && objOf(cinfo, sel.X) == defObj && (sel.Sel.Name == "criteria" || sel.Sel.Name == "AddCriterion") {
+				okNoCriteria = false
+			}
+			if cl, ok := n.(*ast.CompositeLit); ok {
+				if tv, ok := cinfo.Types[cl]; ok && namedTypeName(tv.Type) == "Route" {
+					for _, el := range cl.Elts {
+						if kv, ok := el.(*ast.KeyValueExpr); ok && kv.Key.(*ast.Ident).Name == "criteria" {
+							okNoCriteria = false
+						}
+					}
+				}
+			}
+			return true
+		})
+	}
+	return okMake, okSlot, okDefault, okNoCriteria
 }
